@@ -1,27 +1,7 @@
 /- Proofs/Valid.lean — helper lemmas for Props/C07.lean -/
 import PM.Content
+import Proofs.DfaRun
 namespace PM
-
-theorem Dfa.run_nil (d : Dfa) (q : Nat) : d.run q [] = some q := rfl
-
-theorem Dfa.run_cons (d : Dfa) (q : Nat) (t : TypeId) (ts : List TypeId) :
-    d.run q (t :: ts) = (d.matchType q t).bind (fun q' => d.run q' ts) := by
-  simp only [Dfa.run]
-  cases d.matchType q t <;> rfl
-
-theorem Dfa.run_append (d : Dfa) (q : Nat) (xs ys : List TypeId) :
-    d.run q (xs ++ ys) = (d.run q xs).bind (fun q' => d.run q' ys) := by
-  induction xs generalizing q with
-  | nil => rfl
-  | cons x xs ih =>
-    simp only [List.cons_append, Dfa.run_cons]
-    cases d.matchType q x with
-    | none => rfl
-    | some q' => simp [ih]
-
-theorem Dfa.run_singleton (d : Dfa) (q : Nat) (t : TypeId) : d.run q [t] = d.matchType q t := by
-  simp only [Dfa.run_cons]
-  cases d.matchType q t <;> rfl
 
 /-- a successful run over a concatenation implies a successful run over the prefix -/
 theorem Dfa.run_prefix_isSome (d : Dfa) (q : Nat) (xs ys : List TypeId)
@@ -37,10 +17,6 @@ theorem Dfa.accepts_run_isSome (d : Dfa) (ts : List TypeId) (h : d.accepts ts = 
   cases hx : d.run 0 ts with
   | none => simp [hx] at h
   | some _ => rfl
-
-theorem Schema.types_append (S : Schema) (a b : List Node) :
-    S.types (a ++ b) = S.types a ++ S.types b := by
-  simp [Schema.types]
 
 theorem Schema.checkKids_iff (S : Schema) (l : List Node) :
     S.checkKids l = true ↔ ∀ k, k ∈ l → S.checkNode k = true := by
